@@ -102,7 +102,7 @@ class TBufFile(AbstractBufferedFile):
 
 class TraceFS(AbstractFileSystem):
     protocol = "vfs"
-    cachable = False
+    cachable = True  # like real filesystems (local, memory, s3 ...): pickled copies resolve to the same cached instance
     root_marker = "/"
 
     @classmethod
